@@ -10,7 +10,8 @@ open EzdxfVerif EzdxfVerif.XTags EzdxfVerif.Storage Proto
     sect|records              -> ok tags | err kind        (stored sections of load_dxf_structure -> export)
     struct|records            -> ok name=count;… | err kind (load_dxf_structure + the deletion in Drawing._load)
     custom|name:value;…       -> tag:value;…               (HeaderSection custom property stack)
-    written|name;name;…|tag:value;… -> name:value;…        (where CustomVars.write puts them)
+    written|r2004|name;name;…|tag:value;… -> name:value;…  (where HeaderSection.export_dxf puts them; r2004 = 1 for DXF R2004+)
+    xrec|alive,…|tags         -> ok tags | err kind        (XRECORD: load -> export)
     classes|name:cpp;…        -> name:cpp;…                (ClassesSection.register) -/
 
 def natDigits (n : Nat) : List Nat := (toString n).toList.map Char.toNat
@@ -91,9 +92,16 @@ def step (line : String) : String :=
     (match parsePairs g with
      | some gs => showPairs (customLoad gs)
      | none => "bad-op")
-  | ["written", names, g] =>
+  | ["written", v, names, g] =>
     (match (if names.isEmpty then some [] else (names.splitOn ";").mapM (fun n => (parseNats n).map V.str)), parsePairs g with
-     | some ns, some ps => showPairs (customWritten ns ps)
+     | some ns, some ps => showPairs (customWritten (v == "1") ns ps)
+     | _, _ => "bad-op")
+  | ["xrec", a, t] =>
+    (match parseAlive a, parseTags t with
+     | some al, some ts =>
+       (match load ts with
+        | .error e => "err " ++ showErr e
+        | .ok e => showRes (exportXRecord (fun v => al.contains v) e))
      | _, _ => "bad-op")
   | ["classes", g] =>
     (match parsePairs g with
